@@ -86,7 +86,7 @@ struct LiveNode {
         });
         node->start_transport(0);
     }
-    ~LiveNode() { node->stop_transport(); }
+    ~LiveNode() { fx::stop_and_destroy(node); }
     std::size_t count() { std::scoped_lock lock(m); return received.size(); }
 };
 
@@ -372,7 +372,7 @@ void c14m_case(Ctx& c, Rng& r) {
             });
             node->start_transport(0);
         }
-        ~SlowNode() { node->stop_transport(); }
+        ~SlowNode() { fx::stop_and_destroy(node); }
         std::size_t count() { std::scoped_lock lock(m); return received.size(); }
     };
     LiveNode A(r.arr<32>(), ca);
